@@ -1,5 +1,5 @@
 From Coq Require Import Extraction ExtrOcamlBasic NArith ZArith.
-From Storage Require Import Base.Bytes Codec.CodecBase Codec.Varint Codec.CompoundKey Codec.FieldCodec Codec.Containers.
+From Storage Require Import Base.Bytes Codec.CodecBase Codec.Varint Codec.CompoundKey Codec.FieldCodec Codec.Containers Codec.Persist Codec.Getters.
 Extraction Language OCaml.
 Definition force_types : nat * N * Z := (O, 0%N, 0%Z).
 Extraction "c13_model.ml" force_types
@@ -9,4 +9,8 @@ Extraction "c13_model.ml" force_types
   apply_op apply_ops get_node entries_of get_marshaled get_map get_list get_string_list
   get_string get_bool get_int32 get_int64 get_float64 get_time
   map_field_checker mapped_field_checker with_field_overrides proceed
-  get_and_set_string_out get_and_set_string_list_out b_put b_put_bucket place.
+  get_and_set_string_out get_and_set_string_list_out b_put b_put_bucket place
+  get_path ensure_path at_path node_at parent_context override_context resolve init_slots level_path
+  ctx_write apply_write step run trace persist persist_trace
+  get_string_with_default get_string_or_error get_bool_with_default get_int32_with_default get_int64_with_default
+  get_time_or_default get_time_or_error is_string_list_empty child_buckets names_set copy_bucket copy_paths prune.
